@@ -4,6 +4,12 @@ Specification: spec/Calls.tla (EXTENDS Assign/Values).  A fixed library of annot
 specification (Calls!Lib); TLC emits it as JSON and this driver generates the real Python functions from
 it, so that the checker and TLC look at the same functions.
 
+      The library has two parts: the first-built entries (Calls!LibOld) and the entries for the parameter-level
+      mechanisms of _check_param_type_compatibility / check_call_with_bound_args / get_default_return / bind_self
+      (Calls!LibNew: defaults inside / outside the annotation, keyword-only, type[...] / TypedDict / Annotated /
+      Literal-union parameters, unbound-method / self-typed-method call forms, __init__ / __new__ / dataclass
+      (default_factory, InitVar, kw_only) / NamedTuple constructors, missing / None / NoReturn returns, unsolved type
+      variables), enumerated by Calls.new.*.cfg with the call shapes plain / star / mixed / mixedk.
 S->C  every call TLC enumerates (library function x literal argument tuple, only calls that bind) is
       realised as `def case_i(): return <call>` in a module that also holds the generated library; the
       module is checked by the real visitor (annotate=True): diagnostics on the call line, the inferred
@@ -40,17 +46,26 @@ OUTCOMES = [
     "nongeneric-accepted", "nongeneric-diagnosed", "generic-accepted", "generic-pass1-diagnosed",
     "generic-unsolvable", "generic-pass2-diagnosed", "star-params-merged-diagnostic", "default-bound",
     "runtime-raises", "session-cache-hit",
+    # the defaults / parameter kinds / call forms / returns slice (Calls!LibNew)
+    "ill-typed-default-omitted-accepted", "explicit-equal-to-ill-typed-default-diagnosed",
+    "explicit-python-equal-to-default-other-literal", "mixed-shape-own-node-and-call-node", "constructor-default",
+    "call-performed-by-checker", "self-typed-method", "unsolved-typevar", "return-inferred-from-body", "call-never-returns",
 ]
 _DIAG = {"incompatible_argument": "nia", "incompatible_call": "nic"}
 
 # --------------------------------------------------------------------------- library -> Python source
 
 _PRELUDE = (
-    "from typing import Any, Callable, Literal, Union, Optional, NewType, TypeVar\n"
+    "from typing import Any, Callable, Literal, Union, Optional, NewType, TypeVar, NamedTuple, NoReturn, Annotated\n"
     "from collections.abc import Sequence, Iterable, Mapping\n"
-    "from dataclasses import dataclass\n"
+    "from dataclasses import dataclass, field, InitVar\n"
     "from harness.universe import A, B, Color, N\n"
+    "from harness import universe as HU\n"
 )
+# diagnostics the DEFINITIONS of the library legitimately receive: a default outside its annotation (Calls!LibNew, on
+# purpose) is reported at the def (incompatible_default) / at the dataclass field (incompatible_assignment); they are
+# not call diagnostics and are only tolerated on library lines
+_LIB_DIAG = {"incompatible_default", "incompatible_assignment"}
 
 
 def ann(t: dict) -> str:
@@ -58,6 +73,10 @@ def ann(t: dict) -> str:
     k = t["k"]
     if k == "typevar":
         return t["n"]
+    if k == "ann":
+        return "Annotated[" + ann(t["t"]) + ', "meta"]'
+    if k == "initvar":
+        return f"InitVar[{ann(t['t'])}]"
     if k == "callable":
         return f"Callable[[{', '.join(ann(p) for p in t['ps'])}], {ann(t['r'])}]"
     if k == "generic":
@@ -83,6 +102,10 @@ def lit(o: dict) -> str:
         return o["v"]
     if o["c"] in ("ItI", "ItS"):
         return o["c"] + "()"
+    if o["c"] == "float" and o["v"] == "0.0":  # Calls!F00 (not a scalar of the shared universe)
+        return "0.0"
+    if o["c"] == "dcfactory":
+        return f"field(default_factory={o['v']})"
     c, items = o["c"], o.get("items", [])
     if c == "list":
         return "[" + ", ".join(lit(x) for x in items) + "]"
@@ -101,7 +124,7 @@ def _params_src(decl: list[dict]) -> str:
     for p in decl:
         name, kind = p["name"], p["kind"]
         if name in ("self", "cls"):
-            parts.append(name)
+            parts.append(f"{name}: {ann(p['ann'])}" if p["ann"]["k"] == "typevar" else name)  # `self: T`
             continue
         text = f"{name}: {ann(p['ann'])}"
         if p["dflt"]:
@@ -123,6 +146,10 @@ def _body_src(fn: dict) -> str:
     b = fn["body"]
     a = [bound[i - 1] for i in b["is"]]
     k = b["k"]
+    if k == "self":
+        return "return self"
+    if k == "raise":
+        return "raise ValueError('x')"
     if k == "param":
         return f"return {a[0]}"
     if k == "const":
@@ -151,6 +178,16 @@ def _body_src(fn: dict) -> str:
     raise core.MachineryError(f"cannot realise body {b}")
 
 
+def _ret_src(fn: dict) -> str:
+    """Return annotation of a def ('' = none: Calls!NoAnn; NoReturn for the empty union)."""
+    r = fn["ret"]
+    if r["k"] == "noann":
+        return ""
+    if r["k"] == "union" and not r["ms"]:
+        return "NoReturn"
+    return ann(r)
+
+
 def library_source(libdata: dict) -> str:
     """Python source of the whole library (type variables, helper functions, functions, classes)."""
     out = [_PRELUDE]
@@ -174,51 +211,76 @@ def library_source(libdata: dict) -> str:
         if fn["cls"]:
             classes.setdefault(fn["cls"], []).append(fn)
         else:
-            out.append(f"def {fn['name']}({_params_src(fn['decl'])}) -> {ann(fn['ret'])}: {_body_src(fn)}")
+            ret = _ret_src(fn)
+            out.append(f"def {fn['name']}({_params_src(fn['decl'])}){' -> ' + ret if ret else ''}: {_body_src(fn)}")
     for cname, fns in classes.items():
         if any(f["mk"] == "inherited" for f in fns):
             out.append(f"class {cname}(K): pass")  # Calls.tla: mk "inherited" = subclass of K without a def of its own
             continue
-        if any(f["mk"] == "dcinit" for f in fns):
-            (dc,) = [f for f in fns if f["mk"] == "dcinit"]
-            out.append("@dataclass")
-            out.append(f"class {cname}:")
-            for p in dc["decl"][1:]:
+        if any(f["mk"] in ("dcinit", "ntnew") for f in fns):
+            (dc,) = [f for f in fns if f["mk"] in ("dcinit", "ntnew")]
+            fields = dc["decl"][1:]
+            if dc["mk"] == "ntnew":
+                out.append(f"class {cname}(NamedTuple):")
+            else:
+                # keyword-only parameters of the generated __init__ come from @dataclass(kw_only=True)
+                kinds = {p["kind"] for p in fields}
+                if kinds - {"pk"} and kinds != {"ko"}:
+                    raise core.MachineryError(f"cannot realise the dataclass {cname}: mixed parameter kinds {kinds}")
+                out.append("@dataclass(kw_only=True)" if kinds == {"ko"} else "@dataclass")
+                out.append(f"class {cname}:")
+            for p in fields:
                 dflt = f" = {lit(p['dflt'][0])}" if p["dflt"] else ""
                 out.append(f"    {p['name']}: {ann(p['ann'])}{dflt}")
-            fns = [f for f in fns if f["mk"] != "dcinit"]
+            initvars = [p["name"] for p in fields if p["ann"]["k"] == "initvar"]
+            if initvars:
+                out.append(f"    def __post_init__(self, {', '.join(initvars)}): pass")
+            fns = [f for f in fns if f["mk"] not in ("dcinit", "ntnew")]
         else:
             out.append(f"class {cname}:")
         for fn in fns:
             deco = {"classmethod": "    @classmethod\n", "staticmethod": "    @staticmethod\n"}.get(fn["mk"], "")
-            ret = "None" if fn["mk"] == "init" else (f'"{cname}"' if fn["mk"] == "new" else ann(fn["ret"]))
-            out.append(f"{deco}    def {fn['name']}({_params_src(fn['decl'])}) -> {ret}: {_body_src(fn)}")
+            ret = "None" if fn["mk"] == "init" else (f'"{cname}"' if fn["mk"] == "new" else _ret_src(fn))
+            out.append(f"{deco}    def {fn['name']}({_params_src(fn['decl'])}){' -> ' + ret if ret else ''}: {_body_src(fn)}")
     out.append("k0 = K(1)")
     return "\n".join(out) + "\n"
 
 
 def call_source(fn: dict, case: dict) -> str:
-    if case["shape"] == "star":
-        args = []
-        if case["pos"]:
-            args.append("*(" + "".join(lit(o) + ", " for o in case["pos"]) + ")")
-        if case["kw"]:
-            args.append("**{" + ", ".join(f'"{e["name"]}": {lit(e["o"])}' for e in case["kw"]) + "}")
+    def star_pos(objs: list[dict]) -> list[str]:
+        return ["*(" + "".join(lit(o) + ", " for o in objs) + ")"] if objs else []
+
+    def star_kw(entries: list[dict]) -> list[str]:
+        return ["**{" + ", ".join(f'"{e["name"]}": {lit(e["o"])}' for e in entries) + "}"] if entries else []
+
+    shape, pos, kw = case["shape"], case["pos"], case["kw"]
+    plain_kw = [f"{e['name']}={lit(e['o'])}" for e in kw]
+    if shape == "star":      # f(*(a, b), **{"k": c})
+        args = star_pos(pos) + star_kw(kw)
+    elif shape == "mixed":   # f(a, *(b,), **{"k": c}): only the first positional is written on its own
+        args = [lit(pos[0])] + star_pos(pos[1:]) + star_kw(kw)
+    elif shape == "mixedk":  # f(*(a, b), k=c): only the keywords are written on their own
+        args = star_pos(pos) + plain_kw
+    elif shape == "plain":
+        args = [lit(o) for o in pos] + plain_kw
     else:
-        args = [lit(o) for o in case["pos"]] + [f"{e['name']}={lit(e['o'])}" for e in case["kw"]]
+        raise core.MachineryError(f"unknown call shape {shape!r}")
     callee = {
         "fn": fn["name"],
         "inst": f"k0.{fn['name']}",
         "tinst": f"K(1).{fn['name']}",
         "cls": f"{fn['cls']}.{fn['name']}",
         "ctor": fn["cls"],
+        "unbound": f"{fn['cls']}.{fn['name']}",
     }[fn["recv"]]
+    if fn["recv"] == "unbound":  # the method fetched from the class, the receiver given explicitly
+        args = ["k0"] + args
     return f"{callee}({', '.join(args)})"
 
 
 # --------------------------------------------------------------------------- real objects / Values -> terms
 
-_XCLS = {"K": "k", "K2": "k2", "W": "w", "D": "d", "ItI": "i", "ItS": "s"}
+_XCLS = {"K": "k", "K2": "k2", "W": "w", "D": "d", "ItI": "i", "ItS": "s", "Box": "box", "WN": "wn", "DD": "dd", "DK": "dk"}
 
 
 def obj_term(x: Any) -> dict:
@@ -230,6 +292,10 @@ def obj_term(x: Any) -> dict:
         return {"c": "function", "v": x.__name__, "items": []}
     if t.__name__ in _XCLS and t.__module__.startswith("verifmod"):
         return {"c": t.__name__, "v": _XCLS[t.__name__], "items": []}
+    if t.__name__ == "NT" and t.__module__.startswith("verifmod"):  # the NamedTuple of the library: its fields
+        return {"c": "NT", "v": "", "items": [obj_term(e) for e in x]}
+    if t is float and x == 0.0:  # Calls!F00
+        return {"c": "float", "v": "0.0", "items": []}
     if t in (list, tuple, set):
         return {"c": t.__name__, "v": "", "items": [obj_term(e) for e in (sorted(x, key=repr) if t is set else x)]}
     if t is dict:
@@ -241,7 +307,7 @@ def _cls_name(typ: Any) -> str:
     name = U.CLASS_NAME.get(typ)
     if name is not None:
         return name
-    if isinstance(typ, type) and typ.__name__ in _XCLS and typ.__module__.startswith("verifmod"):
+    if isinstance(typ, type) and typ.__name__ in (*_XCLS, "NT") and typ.__module__.startswith("verifmod"):
         return typ.__name__
     return "other"
 
@@ -275,6 +341,8 @@ def val_term(v: Any) -> dict:
         if params is None:
             return {"k": "other", "text": str(v)}
         return {"k": "callable", "ps": [val_term(p.annotation) for p in params.values()], "r": val_term(sig.return_value)}
+    if isinstance(v, V.SubclassValue):
+        return {"k": "subclass", "t": val_term(v.typ)}
     if isinstance(v, V.SequenceValue):
         return {"k": "seq", "c": _cls_name(v.typ), "ms": [{"many": bool(m), "t": val_term(t)} for m, t in v.members]}
     if isinstance(v, V.GenericValue):  # includes DictIncompleteValue / TypedDictValue: their generic arguments
@@ -360,6 +428,8 @@ def observe_chunk(arg: tuple[dict, list[tuple[int, dict]]]) -> list[dict]:
     for f in fails:
         codename = getattr(f.get("code"), "name", None)
         j = line_of.get(f.get("lineno"))
+        if j is None and codename in _LIB_DIAG and (f.get("lineno") or 0) <= base:
+            continue
         if j is None or codename not in _DIAG:
             raise core.MachineryError(
                 f"unexpected diagnostic in the realised module: {codename} line {f.get('lineno')}: "
@@ -490,7 +560,57 @@ def outcome_classes(fns: dict, o: dict) -> list[str]:
         out.append("default-bound")
     if o["real"]["raised"]:
         out.append("runtime-raises")
+    # --- the defaults / parameter kinds / call forms / returns slice (recorded facts only)
+    params = [p for p in fn["decl"] if p["name"] not in ("self", "cls")]
+    pk = [p for p in params if p["kind"] == "pk"]
+    bound: dict[str, dict] = {}        # parameter name -> explicit argument object
+    for i, a in enumerate(o["pos"]):
+        if i < len(pk):
+            bound[pk[i]["name"]] = a
+    for e in o["kw"]:
+        bound[e["name"]] = e["o"]
+    ill = {p["name"] for p in params if p["dflt"] and p["name"] in _ILL_DEFAULTS.get(fn["id"], ())}
+    if ill - set(bound) and not diagnosed:
+        out.append("ill-typed-default-omitted-accepted")
+        if fn["recv"] == "ctor":
+            out.append("constructor-default")
+    for p in params:
+        if p["name"] in ill and p["name"] in bound:
+            d, a = p["dflt"][0], bound[p["name"]]
+            if a == d and diagnosed:
+                out.append("explicit-equal-to-ill-typed-default-diagnosed")
+            elif a != d and _py_equal(a, d):
+                out.append("explicit-python-equal-to-default-other-literal")
+    if o["shape"] in ("mixed", "mixedk") and o["nia"] >= 2:
+        out.append("mixed-shape-own-node-and-call-node")
+    if fn["mk"] == "ntnew" and o["inferred"]["k"] == "known":
+        out.append("call-performed-by-checker")
+    if fn["mk"] == "selfmethod":
+        out.append("self-typed-method")
+    if o["solved"] and any(t == {"k": "any", "src": "generic_argument"} for t in o["sigma"]):
+        out.append("unsolved-typevar")
+    if fn["ret"]["k"] == "noann":
+        out.append("return-inferred-from-body")
+    if fn["body"]["k"] == "raise" and o["real"]["raised"]:
+        out.append("call-never-returns")
     return out
+
+
+# parameters of Calls!LibNew whose default lies OUTSIDE the annotation (used for the vacuity classes above only;
+# whether a default is ill-typed is also what pyanalyze reports as incompatible_default on the def)
+_ILL_DEFAULTS = {
+    "d_none": {"x"}, "d_str0": {"name"}, "d_flag": {"flag"}, "d_xs": {"xs"}, "d_mix": {"a", "b"}, "d_ko": {"name"},
+    "d_ko2": {"k"}, "g_def": {"d"}, "k0.dmeth": {"x"}, "K.dmeth(k0)": {"x"}, "K.cdef": {"x"}, "K.sdef": {"x"},
+    "Box": {"label"}, "WN": {"x"}, "DD": {"x"}, "DK": {"y"},
+}
+
+
+def _py_equal(a: dict, b: dict) -> bool:
+    """Python's == on two object terms (0 == False == 0.0) -- for the vacuity classes only."""
+    try:
+        return bool(eval(lit(a), {}) == eval(lit(b), {}))  # literals of the universe only (no names)
+    except Exception:  # noqa: BLE001 - A() and friends: not comparable here
+        return False
 
 
 def _nontrivial(libdata_fns: dict, case: dict) -> bool:
@@ -509,9 +629,16 @@ def judge(check: core.Check, libdata: dict, cases: list[dict], label: str,
     fns = {f["id"]: f for f in libdata["lib"]}
     counts: dict[str, int] = {}
     classes = check.cov.setdefault("outcome_classes", {k: 0 for k in OUTCOMES})
+    # information, not a verdict: what the checker infers for DIAGNOSED calls (the result clause judges only calls whose
+    # arguments fit; the drift clause still pins the value to the model's get_default_return / declared return)
+    on_error = check.cov.setdefault("inferred_on_error", {})
     for o in obs:
         for k in outcome_classes(fns, o):
             classes[k] += 1
+        if o["kind"] == "call" and o["nia"] + o["nic"] > 0:
+            inf = o["inferred"]
+            key = ("generic:" if fns[o["fn"]]["tvs"] else "nongeneric:") + inf["k"] + (":" + inf["src"] if inf["k"] == "any" else "")
+            on_error[key] = on_error.get(key, 0) + 1
         if o["kind"] == "sess":
             case = {"sess": o["calls"]}
         else:
@@ -574,6 +701,17 @@ def run(check: core.Check) -> None:
         "value inferred for T (Calls!BodyAmbiguous); strings of the universe have at most one character",
         "sessions (several calls in one fresh run of the checker) only cover the protocol-cache family it_obj/it_int/"
         "it_str x ItI()/ItS()/A()/[1]; all other calls are observed in a Checker shared by the whole batch",
+        "an explicitly passed argument is judged by Member against the declared type of its parameter whatever the "
+        "parameter's default is; an omitted parameter is no argument (its default is exempt, signature.py:654-658). The "
+        "library contains defaults OUTSIDE their annotation on purpose (x: int = None, name: str = 0, flag: bool = 1, "
+        "xs: list[int] = (), dataclass fields, __init__/__new__/method parameters); such defs are themselves reported "
+        "(incompatible_default / incompatible_assignment), which is tolerated on library lines only. No library body lets an "
+        "ill-typed default escape through a return type that excludes it: for `def g(x: int = None): return x` (no return "
+        "annotation) the checker infers int from the body while g() returns None -- the def is diagnosed, so the result "
+        "clause is not applied to that shape",
+        "the receiver of a `self: T` method counts as an argument (it must belong to the solution of T); NamedTuple "
+        "constructor calls whose arguments are all literals are really executed by the checker (allow_call), the inferred "
+        "value is then the literal result; a `-> NoReturn` function raises: nothing is judged about its result",
     ]
     # 1. the design: TLC proves the three clauses for every call of the bounded space on the model
     cfg = "Calls.quick.cfg" if quick else "Calls.thorough.cfg"
@@ -616,15 +754,55 @@ def run(check: core.Check) -> None:
     exhaustive = len(cases) <= limit
     if not exhaustive:
         cases = rnd.sample(cases, limit)
+    # 2b. the defaults / parameter kinds / call forms / returns slice (Calls!LibNew): TLC proves the clauses on the
+    # model and emits the cases in the same run.  Quick: every call with at most one argument, plus a seeded sample of
+    # the two-argument calls; thorough: all of them (three arguments).
+    ncfg = "Calls.new.quick.cfg" if quick else "Calls.new.thorough.cfg"
+    nres = core.require_ok(core.run_tlc("CallsEmit", ncfg, timeout=3000), "Calls defaults slice")
+    check.add_tlc("exhaustive+emit:" + ncfg, nres)
+    new_cases = [c for c in core.emitted_json(nres) if not (isinstance(c, dict) and "lib" in c)]
+    if len(new_cases) < 2000:
+        raise core.MachineryError("the defaults slice emitted suspiciously few cases")
+    check.cov["defaults_slice_model_cases"] = len(new_cases)
+    if quick:
+        small = [c for c in new_cases if len(c["pos"]) + len(c["kw"]) <= 1]
+        big = [c for c in new_cases if len(c["pos"]) + len(c["kw"]) > 1]
+        big.sort(key=core.canon)
+        new_cases = small + rnd.sample(big, min(len(big), 1000))
+        exhaustive_new = len(new_cases) == check.cov["defaults_slice_model_cases"]
+    else:
+        exhaustive_new = True
+    check.cov["defaults_slice_replayed"] = len(new_cases)
+    check.cov["defaults_slice_exhaustive"] = exhaustive_new
+    r = core.run_tlc("Calls", "Calls.sens3.cfg", timeout=900)
+    if r.violated != "InvDiagnosis":
+        raise core.MachineryError(
+            f"sensitivity self-test Calls.sens3.cfg failed: a model that treats 'equal to the default' as 'is the default' "
+            f"unexpectedly satisfies InvDiagnosis ({r.error})")
+    check.cov["sensitivity"] += (
+        "; model deciding 'this argument is the parameter's default' by equality instead of identity (Calls.sens3, "
+        "Bug = default_by_equality) violates InvDiagnosis"
+    )
+    cases = cases + new_cases
     check.cov["exhaustive"] = exhaustive
     check.cov["model_cases"] = len(cases)
     check.cov["library_functions"] = len(libdata["lib"])
     check.cov["rule"] = (
         "cases = states with stage=done of Calls.tla (library function x literal argument tuple that binds); "
-        "non-trivial = generic function, or >= 2 arguments, or a method/classmethod/staticmethod/constructor"
+        "non-trivial = generic function, or >= 2 arguments, or a method/classmethod/staticmethod/constructor. "
+        "Two slices: (a) the first-built library (Calls.emit.*.cfg: small/full literal menu, plain [+ star] shapes) and "
+        "(b) the defaults / parameter kinds / call forms / returns entries Calls!LibNew (Calls.new.*.cfg: menu "
+        "0, False, 0.0, '', None, (), 1, True, 'a', [1], A(); class objects / dict displays where type[A] / a TypedDict is "
+        "declared; shapes plain, star, mixed f(a, *(b,), **{..}), mixedk f(*(a,), k=b); quick <= 2 arguments with every "
+        "<= 1-argument call and a seeded sample of 1000 two-argument calls replayed, thorough <= 3 arguments, all replayed)"
     )
     counts = judge(check, libdata, cases, "tlc-exhaustive")
     check.cov["verdict_counts"] = counts
+    corrupted_default_selftest(libdata)
+    check.cov["sensitivity"] += (
+        "; corrupted observations (d_none(None) / Box(0) / DK(x=1, y=0) recorded as not diagnosed, d_none() recorded as "
+        "diagnosed, NT(1) recorded as inferring NT(2, 'a')) are flagged by the trace specification"
+    )
     # 3. beyond the exhaustive bound: TLC random simulation of the full literal set with more arguments
     sim = core.simulate_cases("CallsEmit", "Calls.sim.cfg", 800 if quick else 20000, depth=8, seed=check.seed + 11,
                               check=check)
@@ -635,6 +813,34 @@ def run(check: core.Check) -> None:
     missing = [k for k, n in check.cov["outcome_classes"].items() if n == 0 and k not in optional]
     if missing:
         raise core.MachineryError(f"vacuity: no real observation went through {missing}")
+
+
+def corrupted_default_selftest(libdata: dict) -> None:
+    """The clauses of the defaults slice are not vacuous on REAL observations: corrupt recorded fields and confirm that
+    TLC's verdict flags each."""
+    def I(v):  # noqa: E743
+        return {"c": "int", "v": str(v), "items": []}
+
+    none = {"c": "NoneType", "v": "None", "items": []}
+    cases = [
+        {"fn": "d_none", "shape": "plain", "pos": [none], "kw": []},
+        {"fn": "Box", "shape": "plain", "pos": [I(0)], "kw": []},
+        {"fn": "DK", "shape": "plain", "pos": [], "kw": [{"name": "x", "o": I(1)}, {"name": "y", "o": I(0)}]},
+        {"fn": "d_none", "shape": "plain", "pos": [], "kw": []},
+        {"fn": "NT", "shape": "plain", "pos": [I(1)], "kw": []},
+    ]
+    obs = observe(libdata, cases)
+    if core.adjudicate("CallsTrace", TRACE_CFG, obs)[0]:
+        return  # genuine verdicts on these calls are reported by the main run; nothing to self-test against
+    for o in obs[:3]:
+        o["nia"] = 0           # "the explicit argument equal to the ill-typed default was not diagnosed"
+    obs[3]["nia"] = 1          # "the omitted default was diagnosed"
+    obs[4]["inferred"] = {"k": "known", "o": {"c": "NT", "v": "", "items": [I(2), {"c": "str", "v": "a", "items": []}]}}
+    bad, _ = core.adjudicate("CallsTrace", TRACE_CFG, obs)
+    want = {0: "viol:Diagnosis", 1: "viol:Diagnosis", 2: "viol:Diagnosis", 3: "viol:Diagnosis", 4: "viol:ResultInInferred"}
+    missing = {i: v for i, v in want.items() if v not in bad.get(i, [])}
+    if missing:
+        raise core.MachineryError(f"defaults self-test: corrupted observations not flagged: {missing} (verdicts {bad})")
 
 
 def replay(check: core.Check, witness: dict) -> None:
